@@ -59,6 +59,9 @@ class Gen:
                 lines.append("%s f%d" % (self.expr(ft), j + 1))
             if offset_prints and (inner["k"] == "st" or j + 1 == len(inner["f"])):
                 lines.append("@print _offset_")
+        # constants are attributes but not fields: they must not influence layout, tags, offsets or the wire format
+        lines.append("uint8 K_ONE = 1")
+        lines.append("float16 K_HALF = 0.5")
         lines.extend(extra_lines)
         lines.append("@extent %d" % t["x"] if t["k"] == "del" else "@sealed")
         full = "%s.%s.%s" % (self.ns, name, version)
